@@ -162,6 +162,28 @@ def run(cx):
             for st_ in steps:
                 brs = [c for c in co.calls_to("Try::branch") if term_has_call(o.of_operand(c.args[0]), f"{WIRE}::{st_}")
                        and strip_identity(o.of_operand(c.args[0]))[0] in ("field", "variant")]
+                if not brs:
+                    # written out: `match step(..).await { Ok(v) => v, Err(e) => return Err(e) }` - on the Err arm nothing of the
+                    # exchange continues (no further codec step, no dispatch) before the function returns
+                    arms = []
+                    for i_, bl_ in enumerate(co.blocks):
+                        t_ = bl_["t"]
+                        if bl_.get("cleanup") or t_["k"] != "switch":
+                            continue
+                        sj = o.of_operand(t_["discr"])
+                        x_ = strip_identity(sj[1]) if sj[0] == "discr" else ("?",)
+                        is_res = x_[0] == "field" and x_[2] == "0" and x_[1][0] == "variant" and x_[1][2] == "Ready"      # the awaited step's Result (0 = Ok, 1 = Err)
+                        if sj[0] == "discr" and is_res and term_has_call(sj[1], f"{WIRE}::{st_}") and not term_has_call(sj[1], "Try::branch") \
+                                and not any(term_has_call(sj[1], f"{WIRE}::{x_}") for x_ in steps if x_ != st_):
+                            labs = {str(l_) for l_, _ in t_["arms"]}
+                            errs = [tg for l_, tg in t_["arms"] if str(l_) in ("Err", "1")]
+                            if errs:
+                                arms.append((i_, errs[0]))
+                    cont = ("futures_util::sink::SinkExt::send", "futures_util::stream::stream::StreamExt::next", "tower::util::ServiceExt::oneshot", "tower_service::Service::call")
+                    okm = bool(arms) and all(not any(c_.fn and (c_.fn.startswith(WIRE + "::") or name_matches(c_.fn, cont)) for bb_ in co.reachable_from(tg, succ=co.succ)
+                                                     if not co.is_cleanup(bb_) for c_ in [co.call_at(bb_)] if c_ is not None) for _, tg in arms)
+                    ob.require(okm, f"propagate/{fn.split('::')[-1]}/{st_}", f"{fn}: an error of {st_} does not end the exchange (neither `?` nor a match whose Err arm returns)", co.path)
+                    continue
                 ob.require(len(brs) >= 1, f"propagate/{fn.split('::')[-1]}/{st_}", f"{fn}: result of {st_} is not propagated with `?`", co.path)
 
     with cx.ob("C15.5", "R-CALLERS", "every header/body byte goes through the length-limited codec: raw stream reads/writes only for the 8-byte version preamble") as ob:
@@ -191,7 +213,7 @@ def run(cx):
         ob.require(len(w) == 4 and not bad, "framed-header-and-body", "a message codec does not send/receive header and body as two codec frames: " + "; ".join(v.msg for v in bad)[:300], WIRE)
 
     with cx.ob("C15.7", "R-WRITERS", "one layer out: the configured maximum reaches the codecs as configured - Config.max_frame_size is never written after the Config was built and its accessor is a pure projection") as ob:
-        check_config_immutable(ob, prog, ["max_frame_size"])
+        check_config_immutable(ob, prog, ["max_frame_size"], repo=cx.repo)
         check_pure_accessor(ob, prog, "anemo::config::Config::max_frame_size", "max_frame_size")
         check_derived(ob, prog, "anemo::config::Config", "core::default::Default")          # unset really means None
         check_builder_setters(ob, prog, "anemo::network::Builder", {"config": ("config", "config")})
